@@ -223,6 +223,13 @@ def xseqs():
     s.append((xinit(b_uses_a=1, exports=[(A, F2), (A, V0)]), [X("define", A, F2), X("define", A, V0), X("use", C, tgt=B), X("unexport", A, F2), X("unexport", A, V0), X("unuse", C, tgt=B)]))
     # qualified writes
     s.append((xinit(b_uses_a=1), [X("define::", B, V0, A), X("setq::", C, V0, A), X("export", A, V0), X("setq:", C, V0, A), X("setq:", C, V0, B), X("define::", C, F2, A)]))
+    # use-package of the same package twice, one unuse-package: nothing the former home package does afterwards reaches the former user
+    s.append((0, [X("use", B, tgt=A), X("use", B, tgt=A), X("unuse", B, tgt=A), X("define", A, V0), X("export", A, V0), X("setq", A, V0)]))
+    s.append((xinit(b_uses_a=1), [X("use", B, tgt=A), X("unuse", B, tgt=A), X("export", A, F2), X("define", A, F2), X("define", A, V0), X("export", A, V0)]))
+    # an exported function undefined and defined again (once, twice) while another package uses its home: the users get it back
+    s.append((0, [X("export", A, F2), X("define", A, F2), X("use", B, tgt=A), X("unbind", A, F2), X("define", A, F2), X("define", A, F2)]))
+    s.append((xinit(b_uses_a=1), [X("define", A, F2), X("export", A, F2), X("unbind", A, F2), X("define", A, F2), X("unbind", A, F2), X("define", A, F2)]))
+    s.append((xinit(b_uses_a=1, c_uses_a=1, exports=[(A, F2)]), [X("define", A, F2), X("unbind", A, F2), X("define", A, F2), X("unuse", C, tgt=A), X("unbind", A, F2), X("define", A, F2)]))
     out = []
     for init, ops in s:
         for mode in range(3):
